@@ -102,6 +102,8 @@ var (
 			LogDefaultScale: 25,
 		},
 		ParametersLiteral{
+			LogN: utils.Pointy(15),
+			LogP: []int{51, 51},
 			SlotsToCoeffsFactorizationDepthAndLogScales: [][]int{{30, 30}},
 			CoeffsToSlotsFactorizationDepthAndLogScales: [][]int{{49}, {49}},
 			EvalModLogScale: utils.Pointy(50),
@@ -187,6 +189,8 @@ var (
 			LogDefaultScale: 31,
 		},
 		ParametersLiteral{
+			LogN: utils.Pointy(15),
+			LogP: []int{56, 56},
 			SlotsToCoeffsFactorizationDepthAndLogScales: [][]int{{30, 30}},
 			CoeffsToSlotsFactorizationDepthAndLogScales: [][]int{{52}, {52}},
 			EvalModLogScale: utils.Pointy(55),
